@@ -15,18 +15,21 @@ import (
 // independent observer (export target) and the control target of edits.
 type RS struct {
 	Schema *Node
-	Data   Tree // content of the container / entry; for list nodes: the parent content
+	Data   Tree  // content of the container / entry; for list nodes: the parent content
 	list   *Node // non-nil: this node represents the list `list` held in Data[list.Name]
 	// OnEvent, when set, is told about every write (recording mode)
 	Log *[]RSEvent
 	// Detect says how Choose detects the selected case: "" = first case with data at any depth
 	path string
+	// Lenient: schema nodes the model does not know (written into the module as raw text by a check) read as absent
+	// instead of being an error
+	Lenient bool
 }
 
 // RSEvent records one write to the reference store.
 type RSEvent struct {
-	Op   string `json:"op"` // field, clear, new-container, new-list, new-entry, del-child, del-entry
-	Path string `json:"path"`
+	Op   string      `json:"op"` // field, clear, new-container, new-list, new-entry, del-child, del-entry
+	Path string      `json:"path"`
 	Val  interface{} `json:"val,omitempty"`
 }
 
@@ -42,12 +45,15 @@ func (r *RS) ev(op, name string, v interface{}) {
 }
 
 func (r *RS) sub(n *Node, t Tree, path string) *RS {
-	return &RS{Schema: n, Data: t, Log: r.Log, path: path}
+	return &RS{Schema: n, Data: t, Log: r.Log, path: path, Lenient: r.Lenient}
 }
 
 func (r *RS) Child(req node.ChildRequest) (node.Node, error) {
 	name := req.Meta.Ident()
 	d := r.Schema.Child(name)
+	if d == nil && r.Lenient && !req.New {
+		return nil, nil
+	}
 	if d == nil {
 		return nil, fmt.Errorf("reference store: no child %s in %s", name, r.Schema.Name)
 	}
@@ -168,6 +174,9 @@ func (r *RS) Next(req node.ListRequest) (node.Node, []val.Value, error) {
 func (r *RS) Field(req node.FieldRequest, hnd *node.ValueHandle) error {
 	name := req.Meta.Ident()
 	d := r.Schema.Child(name)
+	if d == nil && r.Lenient && !req.Write {
+		return nil
+	}
 	if d == nil || !d.IsLeafy() {
 		return fmt.Errorf("reference store: no leaf %s in %s", name, r.Schema.Name)
 	}
@@ -225,6 +234,9 @@ func (r *RS) Choose(sel *node.Selection, choice *meta.Choice) (*meta.ChoiceCase,
 			break
 		}
 	}
+	if ch == nil && r.Lenient {
+		return nil, nil
+	}
 	if ch == nil {
 		return nil, fmt.Errorf("reference store: no choice %s in %s", choice.Ident(), r.Schema.Name)
 	}
@@ -237,6 +249,7 @@ func (r *RS) Choose(sel *node.Selection, choice *meta.Choice) (*meta.ChoiceCase,
 
 func (r *RS) BeginEdit(node.NodeRequest) error { return nil }
 func (r *RS) EndEdit(node.NodeRequest) error   { return nil }
+
 // Action reads the whole input (as an implementation would) and answers without output.
 func (r *RS) Action(req node.ActionRequest) (node.Node, error) {
 	if req.Input != nil {
@@ -249,9 +262,9 @@ func (r *RS) Action(req node.ActionRequest) (node.Node, error) {
 func (r *RS) Notify(node.NotifyRequest) (node.NotifyCloser, error) {
 	return nil, fmt.Errorf("reference store: no notifications")
 }
-func (r *RS) Peek(*node.Selection, interface{}) interface{}   { return r.Data }
-func (r *RS) Context(sel *node.Selection) context.Context     { return sel.Context }
-func (r *RS) Release(*node.Selection)                         {}
+func (r *RS) Peek(*node.Selection, interface{}) interface{} { return r.Data }
+func (r *RS) Context(sel *node.Selection) context.Context   { return sel.Context }
+func (r *RS) Release(*node.Selection)                       {}
 
 // NewRSList returns a reference-store node standing for the list `list` whose
 // entries are held in holder[list.Name] (holder is the content of the list's parent).
